@@ -224,6 +224,9 @@ func standardEnvs(rng *rand.Rand, n int) []*Env {
 	if n >= 4 {
 		envs = append(envs, floatEnv())
 	}
+	if n >= 5 {
+		envs = append(envs, wrapEnv())
+	}
 	for len(envs) < n {
 		envs = append(envs, randomEnv(rng))
 	}
@@ -249,6 +252,7 @@ func runC01() {
 	}
 	srcs = append(srcs, ex...)
 	srcs = append(srcs, nestedSources()...)
+	srcs = append(srcs, shapeSources()...)
 	g := &egen{rng: rng, wrong: 15, hist: rep.Histogram}
 	for i := 0; i < nRandom; i++ {
 		t := []gtype{tBool, tInt, tNum, tStr, tArrInt, tArrAny, tAny}[rng.Intn(7)]
